@@ -663,6 +663,43 @@ pub fn run(s: &Scn, st: &mut Stats, check_structure: bool) -> Verdict {
         };
         return run_generic(s, st, check_structure, k, &|known| crate::ops_hash::varsha::VarShaCircuit { case: case.clone(), known });
     }
+    if case.op.starts_with("vec.") {
+        let key = format!("{}/{}", case.op, case.p[2]);
+        let cached = k_cache().lock().unwrap().get(&key).copied();
+        let k = match cached {
+            Some(k) => k,
+            None => {
+                // size with a satisfiable instance of the operation
+                let mut probe = case.clone();
+                probe.p[4] = 0;
+                let l1 = probe.p[0] as usize;
+                let first: Vec<Fe> = probe.ins[..=l1].to_vec();
+                if probe.op.contains("not_equal") {
+                    // any two different payloads
+                    if probe.ins[..l1] == probe.ins[l1 + 1..probe.ins.len() - 1] {
+                        probe.p[2] = 1;
+                        probe.ins = [first.clone(), vec![Fe(Fq::from(0xabcdef)), Fe(Fq::from(0))]].concat();
+                        probe.ins[l1 + 1].0 += Fq::from(7);
+                    }
+                } else if probe.op.contains("assert_equal") {
+                    probe.p[2] = probe.p[0];
+                    probe.ins = [first.clone(), first.clone()].concat();
+                }
+                let c0 = crate::ops_vec::VecCircuit { case: probe, known: true };
+                let mut found = None;
+                for kk in 8..=14u32 {
+                    if let Ok(Ok(())) = catch(|| rayon::sim::isolated(1, || midnight_proofs::dev::MockProver::run(kk, &c0, vec![vec![], vec![]]).map(|_| ()))) {
+                        found = Some(kk);
+                        break;
+                    }
+                }
+                let Some(k) = found else { return Verdict::Harness(format!("{}: no k <= 14 fits", case.op)) };
+                k_cache().lock().unwrap().insert(key, k);
+                k
+            }
+        };
+        return run_generic(s, st, check_structure, k, &|known| crate::ops_vec::VecCircuit { case: case.clone(), known });
+    }
     if case.op.starts_with("vp.") {
         let key = "vp.poseidon".to_string();
         let cached = k_cache().lock().unwrap().get(&key).copied();
@@ -780,7 +817,7 @@ fn run_generic<C: midnight_proofs::plonk::Circuit<Fq>>(s: &Scn, st: &mut Stats, 
             ops::Judgement::Wrong(e) => {
                 return Verdict::Violation(Viol::new(
                     "WrongResult",
-                    format!("WrongResult:{}", case.op),
+                    format!("WrongResult:{}{}", case.op, if case.op.starts_with("vec.") { ops::input_class(case) } else { String::new() }),
                     format!("{}: the honest circuit is satisfied with public values {:?}, but {e}", desc(), pubs(&honest.bound_plain)),
                 ))
             }
@@ -839,15 +876,17 @@ fn run_generic<C: midnight_proofs::plonk::Circuit<Fq>>(s: &Scn, st: &mut Stats, 
     // large circuits (foreign-curve scalar multiplications, hashes): a few plans per run
     let mut plans = plans;
     // variable-length hashing: adversarial content of the unused tail of the buffer
-    let filler_value = if case.op.starts_with("vh.") && case.p.get(1).copied().unwrap_or(0) > 128 {
-        Some(Fq::from(case.p[1]))
+    let filler_values: Vec<Fq> = if case.op.starts_with("vh.") && case.p.get(1).copied().unwrap_or(0) > 128 {
+        vec![Fq::from(case.p[1])]
     } else if case.op.starts_with("vp.") && case.p.get(1) == Some(&1) {
-        case.ins.last().map(|x| x.0)
+        case.ins.last().map(|x| x.0).into_iter().collect()
+    } else if case.op.starts_with("vec.") {
+        crate::ops_vec::fillers(case)
     } else {
-        None
+        vec![]
     };
-    if let (Some(f), true) = (filler_value, plans.is_empty()) {
-        let cand: Vec<&(usize, usize, Fq)> = honest.trace.iter().filter(|t| t.2 == f).collect();
+    if !filler_values.is_empty() && plans.is_empty() {
+        let cand: Vec<&(usize, usize, Fq)> = honest.trace.iter().filter(|t| filler_values.contains(&t.2)).collect();
         let mut rng = Prng::new(s.fault_seed, "filler");
         if !cand.is_empty() {
             for _ in 0..if s.n_plans == 0 { 12 } else { 4 } {
@@ -856,7 +895,7 @@ fn run_generic<C: midnight_proofs::plonk::Circuit<Fq>>(s: &Scn, st: &mut Stats, 
                 for _ in 0..n {
                     let t = cand[rng.usize(cand.len())];
                     let g = *rng.pick(&[0u64, 1, 0x80, 0xff, 0x7f]);
-                    let g = if Fq::from(g) == f { 0x55 } else { g };
+                    let g = if filler_values.contains(&Fq::from(g)) { 0x55 } else { g };
                     if !plan.iter().any(|e| e.col == t.0 && e.ord == t.1) {
                         plan.push(CellEdit { col: t.0, ord: t.1, val: FaultVal::Set(Fe(Fq::from(g))) });
                     }
